@@ -207,6 +207,14 @@ def opB : Tok String := do
   let s := searchInputOpen bx bY bz (teo != 0) (clamp != 0) s0
   return " ".intercalate ([toString s.ps.length, toString s.nActive] ++ s.ps.map (fun p => toString p.id))
 
+/-- `G kind bx by bz omega t` → the 27 ghost boxes of `reb_boundary_get_ghostbox` (i,j,k = -1..1 nested), 6 doubles each -/
+def opG : Tok String := do
+  let kind ← tok
+  let bx ← tF; let bY ← tF; let bz ← tF; let omega ← tF; let t ← tF
+  let k : BKind := match kind with
+    | "open" => .open | "periodic" => .periodic | "shear" => .shear | _ => .none
+  return " ".intercalate ((ghostTable RV.Boundary.fmodFloat k bx bY bz omega t).map gbStr)
+
 def opR : Tok String := do
   let seed ← tNat; let n ← tNat
   let (news, s') := drawNews n n (UInt32.ofNat seed)
@@ -219,6 +227,7 @@ def step (toks : List String) : String :=
   | "F" :: r => (opF.run r).1
   | "T" :: r => (opT.run r).1
   | "B" :: r => (opB.run r).1
+  | "G" :: r => (opG.run r).1
   | _ => "bad-op"
 
 def main : IO Unit := runLines step
